@@ -137,8 +137,28 @@ def protocol(sess, suite, thorough):
             for pn, pp in (pkps.items() if thorough or name in ("empty", "only-me") else list(pkps.items())[:3]):
                 for mode in (("first", "all", "disabled") if not thin or name == "empty" else ("first", "all")):
                     guarded(sess, "aggregate %s msg=%s comms=%s shares=%s pkp=%s mode=%s" % (suite, msg, cstr(m), shares_str(sm), pp, mode), "aggregate:%s/%s/%s" % (name, sn, pn))
+    # ---------------- re-randomized entry points: the seed is a byte string a coordinator sends, of ANY length
+    for sl in (0, 1, fld.n - 1, fld.n, fld.n + 1, 64, 300):
+        seed = rng.randbytes(sl).hex()
+        for name, m in (("honest", cm), ("empty", {}), ("identity-hiding", pkgs["identity-hiding"])):
+            guarded(sess, "randomizer %s seed=%s comms=%s" % (suite, seed, cstr(m)), "randomizer:seedlen%d/%s" % (sl, name))
+            guarded(sess, "rand_sign %s msg=%s comms=%s nonces=%s kp=%s seed=%s" % (suite, msg, cstr(m), nonces[me], kps[me], seed), "rand_sign:seedlen%d/%s" % (sl, name))
     # ---------------- dealer shares
     s0 = ss_fields(shares[0])
+    if suite in TOY_SUITES or (thorough and suite == "ristretto255"):
+        # a peer-supplied commitment with 65536 (+ threshold) coefficients: its length does not fit the 16-bit threshold type
+        big = suite in REAL_SUITES
+        for cnt in (65536, 65536 + t):
+            huge = (s0["comm"] * (cnt // len(s0["comm"]) + 1))[:cnt]
+            guarded(sess, "keypkg %s ss=%s" % (suite, mk_ss(s0["id"], s0["share"], huge)), "dealer-share:%d-coefficients" % cnt, model=not big)
+            guarded(sess, "refresh_share %s ss=%s kp=%s" % (suite, mk_ss(s0["id"], s0["share"], huge), kps[me]), "refresh_share:%d-coefficients" % cnt, model=not big)
+            hrun = Dkg(sess, suite, n, t, ids).part1()
+            if hrun.ok:
+                gd = {l: hrun.pkg1[l] for l in ids if l != me}
+                l2_ = [x for x in ids if x != me][1]
+                f2 = r1_fields(gd[l2_])
+                hm = dict(gd, **{l2_: mk_r1((f2["comm"] * (cnt // len(f2["comm"]) + 1))[:cnt], f2["R"], f2["z"])})
+                guarded(sess, "dkg2 %s sp=%s r1=%s" % (suite, hrun.sp1[me], ";".join("%s:%s" % kv for kv in hm.items())), "dkg2:%d-coefficients" % cnt, model=not big)
     for name, ss in {"empty-commitment": mk_ss(s0["id"], s0["share"], []), "one-entry": mk_ss(s0["id"], s0["share"], s0["comm"][:1]),
                      "long-commitment": mk_ss(s0["id"], s0["share"], s0["comm"] * (150 if thorough else 40)),
                      "identity-entries": mk_ss(s0["id"], s0["share"], ["id", "id"]), "other-id": mk_ss(ids[1], s0["share"], s0["comm"])}.items():
